@@ -60,6 +60,9 @@ CHECKS = {
   'C19': dict(category='exploration', technique='element-id symbolic execution of the traced tree utilities / resampling (exact identity queries); CrossHair symbolic execution (z3) of the real dictionary utilities over symbolic keys and separators; enumerated attribute/dataset round trips',
               text='pack/unpack, stack/unstack, split/concat, split_axis and spectral up/down-sampling are exact identities for ALL leaf values on enumerated tree shapes (up-sampling tied to the analytic basis); flatten/unflatten explored by CrossHair per tree shape with symbolic keys (<= 2 chars) and separator within a time budget, counterexamples replayed; coordinate-system attrs and dataset dimension names on enumerated configurations.',
               design='§3 C19'),
+  'C07': dict(category='other', technique='lock-step symbolic execution of the traced shard_map programs over all devices of real CPU meshes (collectives implemented across per-device environments) + QF_LRA / monomial-abstraction equivalence queries against the unsharded program',
+              text='For ALL inputs: sharded transforms, longitude derivative, spectral operators, filters, sharded_einsum (gather/scatter strategies, both argument orders), parallel cumulative sums, vertical padding, primitive-equation implicit/explicit operators equal the single-device results after cropping, on meshes with axis sizes 1,2,4,6 (<= 8 devices) and padded layouts; no non-finite constant reaches the IR.',
+              design='§3 C07'),
   'C13': dict(category='other', technique='symbolic execution of the traced jaxpr + QF_LRA queries (monomial abstraction for bilinear clauses)',
               text='Bounded symbolic verification of the sigma calculus identities for ALL column data and vertical velocities on each enumerated level set (even, dyadic uneven, seeded random), axis and shape.',
               design='§3 C13'),
